@@ -23,6 +23,9 @@ public:
 	virtual void LoadIntVector(std::vector<int32_t>& v, const BitSerializer::SerializationOptions& o, IoIn in) = 0;
 	virtual void SaveZoo(Zoo& z, const BitSerializer::SerializationOptions& o, IoOut out) = 0;
 	virtual void LoadZoo(Zoo& z, const BitSerializer::SerializationOptions& o, IoIn in) = 0;
+	virtual void SaveDynToFile(DynNode& root, const BitSerializer::SerializationOptions& o, const std::string& path) = 0;
+	virtual void LoadDynFromFile(DynNode& root, const BitSerializer::SerializationOptions& o, const std::string& path) = 0;
+	virtual void LoadShapes(Shapes& sh, const BitSerializer::SerializationOptions& o, IoIn in) = 0;
 };
 
 ArchiveOps& GetOps(int archiveId);
